@@ -128,7 +128,15 @@ pub(crate) fn vertex_element_parser(count: u16) -> BinResult<Vec<VertexDeclarati
             }
         }
 
-        let to_seek = NUM_VERTICES as usize * 8 - (declaration.elements.len() + 1) * 8;
+        // a declaration missing its end marker would run past its 17 slots
+        let Some(to_seek) =
+            (NUM_VERTICES as usize * 8).checked_sub((declaration.elements.len() + 1) * 8)
+        else {
+            return Err(binrw::Error::AssertFail {
+                pos: reader.stream_position()?,
+                message: "Vertex declaration has too many elements".to_string(),
+            });
+        };
         reader.seek(SeekFrom::Current(to_seek as i64))?;
     }
 
